@@ -68,6 +68,10 @@ Reads == [reduce |-> {"values", "mask", "codes", "labels", "counts"},
 VARIABLES dirty, filled, results, steps
 mvars == <<dirty, filled, results, steps>>
 
+(* the group listing is made of views of the group-sort indexer: whoever writes one writes the other *)
+Linked(b) == IF b = "indexer" THEN {"indexer", "groups"} ELSE IF b = "groups" THEN {"groups", "indexer"} ELSE {b}
+LinkedAll(S) == UNION {Linked(b) : b \in S}
+
 AllowedAlias(op) == {b \in Buffers : <<op, b>> \in AliasDev}
 AllowedWrites(op) == {b \in Buffers : <<op, b>> \in WriteDev}
 
@@ -94,7 +98,7 @@ Call(op, al, wr) ==
 (* the caller writes through result i (every writable array it can reach)   *)
 Mutate(i) ==
   /\ i \in 1..Len(results)
-  /\ dirty' = dirty \cup results[i].alias
+  /\ dirty' = dirty \cup (LinkedAll(results[i].alias) \cap (Inputs \cup Grouping \cup filled))
   /\ UNCHANGED <<filled, results>>
   /\ steps' = steps + 1
 
@@ -103,7 +107,7 @@ Mutate(i) ==
 Corrupt(b) ==
   /\ EnvCorrupts
   /\ b \in filled
-  /\ dirty' = dirty \cup {b}
+  /\ dirty' = dirty \cup (Linked(b) \cap filled)
   /\ UNCHANGED <<filled, results>>
   /\ steps' = steps + 1
 
